@@ -27,7 +27,7 @@ theorem toI64_zero : toI64 0 = 0 := by
 /-- the exact conjunction under which `Processor.Execute` accepts a block -/
 def Verifies (env : Env) (p : View) (b : Block) : Prop :=
   ∃ ph pt, p.heightRaw.bind parseU64 = some ph ∧ p.tsRaw.bind parseU64 = some pt ∧
-    p.feeRaw.isSome = true ∧
+    (∃ raw, p.feeRaw = some raw ∧ FeeOk raw) ∧
     b.height = (ph + 1) % 18446744073709551616 ∧
     ¬ (b.ts > env.now + (futureBoundMs : Int)) ∧
     ¬ (b.ts < addI64 (toI64 pt) (env.rules b.ts).minBlockGap) ∧
@@ -62,9 +62,18 @@ theorem execute_ok_iff (env : Env) (p : View) (b : Block) :
     intro _ h; omega
   rcases hF : p.feeRaw with _ | fraw
   · simp [hPH, hh, hPT, he, hee]
+  by_cases hfo : ¬ FeeOk fraw
+  · simp only [hPH, hPT, he, hee, hfo, if_false, ne_eq, hh, not_true_eq_false, Option.bind_some]
+    constructor
+    · intro h; cases h
+    · rintro ⟨_, _, _, _, ⟨raw, hraw, hok⟩, _⟩
+      injection hraw with hraw
+      subst hraw
+      exact absurd hok hfo
+  have hfo : FeeOk fraw := Classical.not_not.mp hfo
   have hee' : ¬ (b.numTxs = 0 ∧ b.ts < addI64 (toI64 pt) (env.rules b.ts).minEmptyBlockGap) := hee
-  simp only [hPH, hPT, he, hee', if_false, ne_eq, hh, not_true_eq_false, Option.bind_some,
-    Option.isSome_some]
+  simp only [hPH, hPT, he, hee', hfo, if_true, if_false, ne_eq, hh, not_true_eq_false,
+    Option.bind_some]
   have hemp : b.numTxs = 0 → ¬ b.ts < addI64 (toI64 pt) (env.rules b.ts).minEmptyBlockGap :=
     fun h0 hlt => hee ⟨h0, hlt⟩
   constructor
@@ -76,7 +85,7 @@ theorem execute_ok_iff (env : Env) (p : View) (b : Block) :
     by_cases hroot : b.stateRoot = p.root
     · cases hs : env.sigsOk
       · simp [hr, ht, hs, hroot] at h
-      · exact ⟨ph, pt, rfl, rfl, trivial, rfl, not_false, he, hemp, hroot, rfl, rfl, rfl⟩
+      · exact ⟨ph, pt, rfl, rfl, ⟨fraw, rfl, hfo⟩, rfl, not_false, he, hemp, hroot, rfl, rfl, rfl⟩
     · simp [hr, ht, hroot] at h
   · rintro ⟨ph', pt', h1, h2, _, _, _, _, _, hroot, hr, ht, hs⟩
     simp [hr, ht, hs, hroot]
